@@ -143,11 +143,33 @@ func VerifC16ConnForged() {
 	} else {
 		stateSigKey = -2
 	}
+	// the node may have a second, newer record (another key) under the same node ID and be looked up by that ID:
+	// the state must be verified against the record that authenticated the request, not against whichever comes first
+	var storage nodeenrollment.Storage = st
+	if vf.Bool("node-has-a-newer-record-and-is-looked-up-by-node-id") {
+		id2, _ := nodeenrollment.KeyIdFromPkix(vf.Pkix(2))
+		rec, lerr := types.LoadNodeInformation(ctx, st, id2)
+		if lerr != nil {
+			panic(lerr)
+		}
+		rec.NodeId = "n1"
+		if err := rec.Store(ctx, st); err != nil {
+			panic(err)
+		}
+		id3, _ := nodeenrollment.KeyIdFromPkix(vf.Pkix(3))
+		if err := (&types.NodeInformation{Id: id3, NodeId: "n1", CertificatePublicKeyPkix: vf.Pkix(3), CertificatePublicKeyType: types.KEYTYPE_ED25519}).Store(ctx, st); err != nil {
+			panic(err)
+		}
+		n := len(st.Entries) // newest first
+		st.Entries = append([]vfs.Entry{st.Entries[n-1]}, st.Entries[:n-1]...)
+		req.NodeId = "n1"
+		storage = &vfs.NodeIdStorage{Storage: st}
+	}
 	reqBytes, _ := proto.Marshal(req)
 	protos, _ := nodetls.BreakIntoNextProtos(nodeenrollment.AuthenticateNodeNextProtoV1Prefix, base64.RawStdEncoding.EncodeToString(reqBytes))
 	peer := &vfs.Peer{Protos: protos, Chain: [][]byte{creds.CertificateBundles[0].CertificateDer}, HoldsLeafKey: true}
 	peer.Conn = vf.AdversaryConn(peer.Protos, peer.Chain, 2, true)
-	l, err := NewInterceptingListener(&InterceptingListenerConfiguration{Context: ctx, Storage: st, BaseListener: vfOneConn(peer)})
+	l, err := NewInterceptingListener(&InterceptingListenerConfiguration{Context: ctx, Storage: storage, BaseListener: vfOneConn(peer)})
 	if err != nil {
 		panic(err)
 	}
